@@ -60,6 +60,12 @@ struct Agg {
 /// sample, `S\t<json>` final statistics.
 pub fn worker_main(def: &'static PropDef, tier: Tier, seed: u64, start: u64, stride: u64, runs: u64, only: Option<Vec<u64>>, wid: usize) -> i32 {
 	crate::exec::install_panic_hook();
+	// An allocation bomb must abort this worker, not exhaust the machine.
+	// SAFETY: plain libc call with a valid pointer to an initialised struct.
+	unsafe {
+		let lim = libc::rlimit { rlim_cur: 8 << 30, rlim_max: 8 << 30 };
+		libc::setrlimit(libc::RLIMIT_AS, &lim);
+	}
 	let inflight_dir = format!("{BUILD_DIR}/inflight");
 	let _ = std::fs::create_dir_all(&inflight_dir);
 	let inflight_path = format!("{inflight_dir}/{}.{}", def.id, wid);
@@ -451,7 +457,9 @@ pub fn check_main(def: &'static PropDef, opts: &CheckOpts) -> i32 {
 						crashes += 1;
 						let class = if wo.hang.is_some() { "hang/watchdog".to_owned() } else { format!("crash/{}", wo.status.replace("exit:", "exit-")) };
 						all_viol.push((idx, class, format!("worker died ({}) while evaluating run {idx}", wo.status)));
-						if idx + (nw as u64) < runs && crashes < 64 {
+						// A few crashes/hangs are evidence enough; do not spend the budget on dozens.
+						let limit = if wo.hang.is_some() { 4 } else { 48 };
+						if idx + (nw as u64) < runs && crashes < limit {
 							pending.push((w, idx + nw as u64));
 						}
 					}
@@ -636,7 +644,7 @@ pub fn check_main(def: &'static PropDef, opts: &CheckOpts) -> i32 {
 		}
 		return 2;
 	}
-	if runs_done == 0 {
+	if runs_done == 0 && viol_lines.is_empty() {
 		println!("HARNESS-FAULT: no runs executed");
 		return 2;
 	}
